@@ -5,6 +5,11 @@ CHECKS = {
     technique="TLA+ spec (ReplayFilter.tla) model-checked with TLC; TLC-generated histories replayed on the real filter and all recorded traces (sequential, real-capacity, concurrent with inferred linearization) validated by TLC",
     text="Exhaustive TLC check of the filter specification (statement written as invariants over a history variable, code transcription proven equal to the statement-level compaction on all reachable states), then every maximal history of the bounded model plus random, real-capacity and concurrent histories executed on the real ReplayFilter and validated step by step (answer, size, map/FIFO consistency) by TLC against the specification.",
     note="Trusted: TLC, the overlay accessor VerifState(), the ndjson trace writer; SipHash collisions ignored; Go scheduler interleavings sampled (8-way spin-barrier stress), not enumerated."),
+ "C20": dict(
+    category="model_checking", design_ref="DESIGN.md section 5, C20",
+    technique="TLA+ spec of error values as layer chains (LogElide.tla) model-checked with TLC; every chain of the model instantiated as a real Go error and the outputs of the real ElideError/ElideAddr validated by TLC",
+    text="TLC enumerates every error shape built from the standard network error types to nesting depth 3 (1813 chains) and checks on the transcription of the type switch that no sensitive atom survives (and that the two deviations of the pinned code are visible to the model); each chain is then instantiated with unique marker addresses as a real error value, run through the real functions in safe and unsafe mode, and TLC validates the recorded outcomes against the property (no marker in safe mode, identity in unsafe mode).",
+    note="Trusted: TLC, marker-substring detection of surviving atoms, the instantiation table shape->Go value. Non-network wrapper text is assumed address-free (documented contract). Depth bounded by 3 wrappers."),
 }
 NOT_APPLICABLE = {
  "C07": "Elligator2 is pure field arithmetic over GF(2^255-19) with no state, schedule or history; TLC (32-bit integers, no bignums) could only restate the map over a toy field that nothing can bind to the fixed-field code, so a TLA+ model would be a specification nothing binds to the code (DESIGN.md section 6).",
